@@ -6,7 +6,7 @@ export GOFLAGS=-mod=mod GOPROXY=off GOSUMDB=off GOTOOLCHAIN=local GOWORK=off
 export PATH=/opt/veriftools/go1.26.8/bin:$PATH
 mkdir -p "$here/bin"
 bin="$here/bin/regexlint"
-if [ -x "$bin" ] && [ -z "$(find "$here/lint" -newer "$bin" -type f \( -name '*.go' -o -name go.mod -o -name go.sum \) -print -quit)" ]; then
+if [ -x "$bin" ] && [ -z "$(find "$here/lint" -newer "$bin" -type f \( -name '*.go' -o -name '*.json' -o -name go.mod -o -name go.sum \) -print -quit)" ]; then
   exit 0
 fi
 cd "$here/lint" && go build -o "$bin" ./cmd/regexlint
